@@ -567,6 +567,29 @@ def serde_write_sites(source: str | None = None) -> list:
                         local.add(var)
                         changed = True
         safe = proto | local
+        # simple aliases `x = a.b.c` (assigned exactly once, from a name / attribute chain): a write through the alias
+        # is the same write site as through the chain (`tensor = value.const_value; tensor.name = ...`)
+        assigned: dict = {}
+        for st in ast.walk(fn):
+            if isinstance(st, ast.Assign) and len(st.targets) == 1 and isinstance(st.targets[0], ast.Name):
+                assigned.setdefault(st.targets[0].id, []).append(st.value)
+            elif isinstance(st, (ast.AugAssign, ast.AnnAssign, ast.NamedExpr, ast.For, ast.comprehension)) and isinstance(
+                getattr(st, "target", None), ast.Name
+            ):
+                assigned.setdefault(st.target.id, []).append(None)
+        alias = {v: ast.unparse(vals[0]) for v, vals in assigned.items()
+                 if len(vals) == 1 and isinstance(vals[0], (ast.Attribute, ast.Name))}
+
+        def _expand(t):
+            text = ast.unparse(t)
+            r = _root_name(t)
+            seen = set()
+            while r in alias and r not in seen and (text == r or text.startswith(r + ".") or text.startswith(r + "[")):
+                seen.add(r)
+                text = alias[r] + text[len(r):]
+                r = text.split(".", 1)[0].split("[", 1)[0]
+            return text
+
         for st in ast.walk(fn):
             targets = []
             if isinstance(st, ast.Assign):
@@ -592,5 +615,5 @@ def serde_write_sites(source: str | None = None) -> list:
                 if isinstance(t, (ast.Attribute, ast.Subscript)):
                     r = _root_name(t)
                     if r is not None and r not in safe:
-                        out.append((name, ast.unparse(t)))
+                        out.append((name, _expand(t)))
     return sorted((f, t, WRITE_SITE_OF_TARGET.get(t, ("unknown", t))) for f, t in set(out))
